@@ -1437,12 +1437,13 @@ class DSAPriv(PrivKey, DSAPub):
         if not self.s2k:
             self.x = MPI(packet)
 
-        else:
-            self.encbytes = packet
+            if self.s2k.usage == 0:
+                self.chksum = packet[:2]
+                del packet[:2]
 
-        if self.s2k.usage in [0, 255]:
-            self.chksum = packet[:2]
-            del packet[:2]
+        else:
+            # with usage 255 the two-octet checksum is part of the encrypted data
+            self.encbytes = packet
 
     def decrypt_keyblob(self, passphrase):
         kb = super(DSAPriv, self).decrypt_keyblob(passphrase)
@@ -1478,12 +1479,13 @@ class ElGPriv(PrivKey, ElGPub):
         if not self.s2k:
             self.x = MPI(packet)
 
-        else:
-            self.encbytes = packet
+            if self.s2k.usage == 0:
+                self.chksum = packet[:2]
+                del packet[:2]
 
-        if self.s2k.usage in [0, 255]:
-            self.chksum = packet[:2]
-            del packet[:2]
+        else:
+            # with usage 255 the two-octet checksum is part of the encrypted data
+            self.encbytes = packet
 
     def decrypt_keyblob(self, passphrase):
         kb = super(ElGPriv, self).decrypt_keyblob(passphrase)
